@@ -219,9 +219,11 @@ def _no_composite_in_table(model: Model) -> bool:
 
 def o4_o5(model: Model, rep: Report):
     rep.rule("C15.O4", "OpenQLCircuitFactoryManager.construct: ranges over all nodes in order; sub-circuit -> self.construct(operation, ...) added to the program; unsupported -> skipped; "
-                       "supported -> exactly one kernel = factory_lookup[type(operation)].construct(operation, kernel); the pending kernel is added to the program before any sub-program "
-                       "(and a fresh kernel started after it), and at the end")
-    rep.rule("C15.O5", "a sub-circuit is added operation.nr_of_repetitions times, and every added copy has its own program / kernel names")
+                       "supported -> exactly one kernel = factory_lookup[type(operation)].construct(operation, kernel); typestate of the pending kernel: whenever it may hold "
+                       "operations (always, or exactly when the code's own pending flag says so -- the flag is checked to follow the kernel) it is added to the program BEFORE a "
+                       "sub-program and a fresh kernel is started; after the walk the pending kernel is added")
+    rep.rule("C15.O5", "a sub-circuit is added operation.nr_of_repetitions times, and every added copy -- as well as every kernel started after a flush -- gets a name that cannot "
+                       "repeat within the program (it depends on a counter advanced before each use, or the sub-program is constructed anew under such a name)")
     K = model.cls("OpenQLCircuitFactoryManager")
     f = K.resolve("construct")
     ev = Evaluator(model, inline_methods=False)
@@ -233,6 +235,7 @@ def o4_o5(model: Model, rep: Report):
     construct = "OpenQLCircuitFactoryManager.construct"
     n = 0
     is_decl = ("isinstance", circ, "IDeclarativeCircuit")
+    judged_walk = False
     for p in [q for q in ps if q.exit == "return"]:
         n += 1
         loops = [e for e in p.events if e.kind == "loop"]
@@ -243,12 +246,13 @@ def o4_o5(model: Model, rep: Report):
                 raise AnalysisError(f"{construct}: expected one walk loop")
             loops = walks
         lp = loops[0]
+        lineno = lp.node.lineno
         struct = ("attr", circ, "circuit_structure") if subst(p.cond, {is_decl: TRUE}) != FALSE and is_decl in atoms_of(p.cond) and subst(p.cond, {is_decl: FALSE}) == FALSE else circ
         dom = node_iterator_domain(lp.term)
         base = strip_identity_wrappers(lp.term)
         rep.check(dom == "ALL" and base[0] == "call" and base[1][1] == ("attr", struct, "_circuit_graph"), "C15.O4", construct + "[domain]", f.loc, found=f"{show(lp.term)} -> {dom}", required="all nodes of the circuit, in listing order",
                   what="the exporter does not walk the whole circuit in order", detail="domain")
-        elem = ("bound", "for", lp.node.lineno, show(lp.term))
+        elem = ("bound", "for", lineno, show(lp.term))
         op = ("attr", elem, "operation")
         is_comp = ("isinstance", op, "ICircuitCompositeOperation")
         supported = ("call", ("attr", s, "contains"), (), (("factory_key", ("call", "type", (op,), ())),))
@@ -261,79 +265,178 @@ def o4_o5(model: Model, rep: Report):
         for e in p.events:
             if e.kind == "assign" and e.term is not None and e.term[0] == "call" and e.term[1] == ("fn", "PlatformManager.construct_kernel"):
                 kernel_name = e.extra
-        flush_problem = None
-        rep_problem = None
-        for comp, sup in itertools.product((True, False), repeat=2):
-            mp = {is_comp: TRUE if comp else FALSE, supported: TRUE if sup else FALSE}
-            hit = []
-            for bp in lp.extra["paths"]:
-                c = subst(bp.cond, mp)
-                if c == TRUE:
-                    hit.append(bp)
-                elif c != FALSE:
-                    problems.append(f"walk condition depends on more than (is sub-circuit, is supported): {show(c)}")
-            case = f"sub-circuit={comp}, supported={sup}"
-            if len(hit) != 1:
-                problems.append(f"{len(hit)} paths for {case}")
+        if kernel_name is None:
+            raise AnalysisError(f"{construct}: the pending kernel is not identified")
+        init, assigned = lp.extra["init_env"], lp.extra["assigned"]
+        flags = [nm for nm in assigned if init.get(nm) in (TRUE, FALSE)]
+        counters = [nm for nm in assigned if nm in init and number(init[nm]) is not None and nm not in flags]
+        FL = {nm: ("loopvar", nm, lineno) for nm in flags}
+        oldk = ("loopvar", kernel_name, lineno)
+        no_comp = _no_composite_in_table(model)
+
+        def truth(cond, atom):
+            if subst(cond, {atom: FALSE}) == FALSE:
+                return True
+            if subst(cond, {atom: TRUE}) == FALSE:
+                return False
+            return None
+
+        def is_fresh_kernel(t):
+            return t is not None and t[0] == "call" and t[1] == ("fn", "PlatformManager.construct_kernel")
+
+        def depends_on_advanced_counter(name_term, events_before) -> bool:
+            """the name mentions a loop-carried counter that this path advanced before the name was formed (or an index of an enclosing repetition loop)"""
+            advanced = {e.extra[0] for e in events_before if e.kind == "aug" and e.extra and e.extra[0] in counters and e.extra[1] == "Add"}
+            for y in subterms(name_term, lambda y: y[0] in ("loopvar", "after") and y[1] in counters):
+                if y[1] in advanced or y[0] == "after":
+                    return True
+            for y in subterms(name_term, lambda y: y[0] == "lin"):
+                if any(a[0] in ("loopvar", "after") and a[1] in advanced for a, _ in y[1]):
+                    return True
+            return False
+        info = []
+        for bp in lp.extra["paths"]:
+            comp, sup = truth(bp.cond, is_comp), truth(bp.cond, supported)
+            extra = [a for a in atoms_of(bp.cond) if a not in (is_comp, supported) and a not in FL.values()]
+            if comp is None or sup is None or extra:
+                problems.append(f"walk condition depends on more than (is sub-circuit, is supported, pending flag): {show(bp.cond)[:120]}")
                 continue
-            bp = hit[0]
-            newk = bp.env.get(kernel_name) if kernel_name else None
-            oldk = ("loopvar", kernel_name, lp.node.lineno)
-            inner_loops = [e for e in bp.events if e.kind == "loop"]
-            adds_direct = [c for e in bp.events if e.kind == "effect" for c in find_calls(e.term, "add_program")]
+            fv = {nm: truth(bp.cond, FL[nm]) for nm in flags if FL[nm] in atoms_of(bp.cond)}
+            case = f"sub-circuit={comp}, supported={sup}" + "".join(f", {nm}={v}" for nm, v in sorted(fv.items()))
+            evs = bp.events
+            flush_at = [i for i, e in enumerate(evs) if e.kind == "effect" and e.term is not None for c in find_calls(e.term, "add_kernel") if c[2] == (oldk,)]
+            other_flush = [c for e in evs if e.kind == "effect" and e.term is not None for c in find_calls(e.term, "add_kernel") if c[2] != (oldk,)]
+            prog_at = []
+            inner_loops = []
+            for i, e in enumerate(evs):
+                if e.kind == "effect" and e.term is not None and find_calls(e.term, "add_program"):
+                    prog_at.append(i)
+                if e.kind == "loop" and any(find_calls(x.term, "add_program") for b2 in e.extra["paths"] for x in b2.events if x.kind == "effect" and x.term is not None):
+                    prog_at.append(i)
+                    inner_loops.append((i, e))
+            adds_direct = [c for e in evs if e.kind == "effect" and e.term is not None for c in find_calls(e.term, "add_program")]
+            newk = bp.env.get(kernel_name)
+            fresh_assign = [i for i, e in enumerate(evs) if e.kind == "assign" and e.extra == kernel_name and is_fresh_kernel(e.term)]
+            kernel_at_ext = evs[fresh_assign[-1]].term if fresh_assign else oldk
+            ext = ("call", ("attr", ("sub", ("attr", s, "factory_lookup"), ("call", "type", (op,), ())), "construct"), (op, kernel_at_ext), ())
+            extends = newk == ext
+            rec = dict(case=case, comp=comp, sup=sup, fv=fv, flushed=bool(flush_at), extends=extends, env=bp.env, bp=bp)
+            info.append(rec)
+            if other_flush:
+                problems.append(f"[{case}] a kernel other than the pending one is added to the program")
             if comp:
-                # the sub-program must be added nr_of_repetitions times
+                # the sub-program must be added nr_of_repetitions times, each copy under its own names
                 count_ok = False
-                inner_prog = None
-                for il in inner_loops:
+                for i_l, il in inner_loops:
                     it = il.term
-                    body_adds = [c for b2 in il.extra["paths"] for e in b2.events if e.kind == "effect" for c in find_calls(e.term, "add_program")]
+                    body_adds = [c for b2 in il.extra["paths"] for e in b2.events if e.kind == "effect" and e.term is not None for c in find_calls(e.term, "add_program")]
                     if it == ("call", "range", (("attr", op, "nr_of_repetitions"),), ()) and len(il.extra["paths"]) == 1 and len(body_adds) == 1:
                         count_ok = True
+                        b2 = il.extra["paths"][0]
                         inner_prog = body_adds[0][2][0] if body_adds[0][2] else None
-                        # O5: the program added in each iteration must be constructed inside the iteration (fresh names)
+                        while inner_prog is not None and inner_prog[0] == "var" and len(inner_prog) == 4:
+                            inner_prog = inner_prog[3]
+                        okp = inner_prog is not None and is_call_of(inner_prog, "construct") and inner_prog[1][1] == s
+                        if okp:
+                            kw = dict(inner_prog[3])
+                            pos = list(inner_prog[2])
+                            okp = kw.get("circuit", pos[0] if pos else None) == op
                         constructed_inside = any(isinstance(n_, ast.Call) and isinstance(n_.func, ast.Attribute) and n_.func.attr == "construct" for n_ in ast.walk(il.node))
-                        if not constructed_inside:
-                            rep_problem = "the same sub-program object (one program name, one kernel name) is added in every iteration"
+                        if not okp and constructed_inside:
+                            problems.append(f"[{case}] the program that is added is not the export of the sub-circuit itself")
+                        if not constructed_inside and not judged_walk and not any(o["rule"] == "C15.O5" and o["construct"].endswith("[repetition-names]") for o in rep.obligations):
+                            rep.fail("C15.O5", construct + "[repetition-names]", f.loc, found="the same sub-program object (one program name, one kernel name) is added in every iteration", required="every emitted copy has its own kernel name",
+                                     what="a repetition count >= 2 re-uses one kernel name (OpenQL rejects duplicate kernel names): the same sub-program object (one program name, one kernel name) is added in every iteration",
+                                     detail="duplicate-names")
+                        elif okp:
+                            cid = dict(inner_prog[3]).get("circuit_id", inner_prog[2][1] if len(inner_prog[2]) > 1 else None)
+                            idx = ("bound", "for", il.node.lineno, show(il.term))
+                            fresh_name = cid is not None and (depends_on_advanced_counter(cid, [x for x in b2.events]) or subterms(cid, lambda y: y == idx))
+                            if not judged_walk and not any(o["rule"] == "C15.O5" and o["construct"].endswith("[repetition-names]") and o["verdict"] != "ok" for o in rep.obligations):
+                                rep.check(bool(fresh_name), "C15.O5", construct + "[repetition-names]", f.loc, found=show(cid)[:120] if cid is not None else None, required="every emitted copy has its own program / kernel names",
+                                          what="repeated (or sibling) sub-programs are exported under one name (OpenQL rejects duplicate kernel names)", detail="duplicate-names")
                 if not count_ok and not adds_direct:
                     problems.append(f"[{case}] the sub-circuit is not added operation.nr_of_repetitions times")
                 elif not count_ok:
                     problems.append(f"[{case}] the sub-circuit is added {len(adds_direct)} time(s) regardless of its repetition count")
-                if inner_prog is not None:
-                    okp = is_call_of(inner_prog, "construct") and inner_prog[1][1] == s and (list(inner_prog[2]) + [v for k_, v in inner_prog[3] if k_ in ("circuit",)])[:1] == [op]
-                    if not okp:
-                        problems.append(f"[{case}] what is added is {show(inner_prog)}, not the export of this sub-circuit")
-                # typestate: pending kernel flushed before the sub-program, fresh kernel afterwards
-                flushed = [c for e in bp.events if e.kind == "effect" for c in find_calls(e.term, "add_kernel")]
-                if not flushed:
-                    flush_problem = "operations collected in the pending kernel before a sub-circuit are emitted only after it (add_kernel happens once, after the walk)"
             else:
-                if inner_loops or adds_direct:
+                if prog_at:
                     problems.append(f"[{case}] a plain operation adds a sub-program")
-            ext = ("call", ("attr", ("sub", ("attr", s, "factory_lookup"), ("call", "type", (op,), ())), "construct"), (op, oldk), ())
-            if sup and comp and _no_composite_in_table(model):
-                # the shipped table names leaf classes only: a sub-circuit is never 'supported', so what the code would do in that case is not observable
-                pass
+            if sup and comp and no_comp:
+                pass        # the shipped table names leaf classes only: a sub-circuit is never 'supported'
             elif sup:
-                if newk != ext:
-                    problems.append(f"[{case}] kernel becomes {show(newk)} instead of factory_lookup[type(operation)].construct(operation, kernel)")
+                if not extends:
+                    problems.append(f"[{case}] kernel becomes {show(newk)[:80]} instead of factory_lookup[type(operation)].construct(operation, kernel)")
             else:
-                if newk != oldk and not (comp and newk is not None and newk[0] == "call" and newk[1] == ("fn", "PlatformManager.construct_kernel")):
+                if newk != oldk and not (comp and is_fresh_kernel(newk)):
                     problems.append(f"[{case}] an unsupported operation changes the kernel")
             if bp.exit not in ("fall", "continue"):
                 problems.append(f"[{case}] walk left by {bp.exit}")
+        # the pending flag (if the code keeps one): the flag that the plain supported case raises
+        pend = None
+        for nm in flags:
+            if any(r["env"].get(nm) == TRUE and not r["comp"] and r["sup"] for r in info) and init.get(nm) == FALSE:
+                pend = nm
+        flag_problems = []
+        if pend is not None:
+            for r in info:
+                end = r["env"].get(pend)
+                if r["sup"] and not (r["comp"] and no_comp):
+                    want = TRUE
+                elif r["flushed"]:
+                    want = FALSE
+                else:
+                    want = FL[pend] if not (r["comp"] and r["sup"]) else None
+                if r["comp"] and r["sup"] and no_comp:
+                    continue
+                if want is not None and end != want:
+                    flag_problems.append(f"[{r['case']}] {pend} becomes {show(end)} although the kernel {'was extended' if r['sup'] else 'was flushed' if r['flushed'] else 'did not change'}")
+        # typestate: flush before sub-program whenever the kernel may be pending
+        flush_problem = None
+        for r in info:
+            if not r["comp"]:
+                continue
+            may_pend = True if pend is None else (r["fv"].get(pend) is not False)
+            bp = r["bp"]
+            evs = bp.events
+            flush_at = [i for i, e in enumerate(evs) if e.kind == "effect" and e.term is not None for c in find_calls(e.term, "add_kernel") if c[2] == (oldk,)]
+            prog_idx = [i for i, e in enumerate(evs) if (e.kind == "effect" and e.term is not None and find_calls(e.term, "add_program")) or
+                        (e.kind == "loop" and any(find_calls(x.term, "add_program") for b2 in e.extra["paths"] for x in b2.events if x.kind == "effect" and x.term is not None))]
+            if not may_pend:
+                continue
+            if not flush_at:
+                flush_problem = "operations collected in the pending kernel before a sub-circuit are emitted only after it (add_kernel happens once, after the walk)"
+                continue
+            if prog_idx and flush_at[0] > prog_idx[0]:
+                flush_problem = "the pending kernel is added after the sub-program it precedes"
+                continue
+            fresh = [i for i, e in enumerate(evs) if e.kind == "assign" and e.extra == kernel_name and is_fresh_kernel(e.term) and i > flush_at[0]]
+            if not fresh:
+                flush_problem = "after the pending kernel was added no fresh kernel is started (later operations extend a kernel that is already part of the program)"
+                continue
+            nm_t = dict(evs[fresh[0]].term[3]).get("name", evs[fresh[0]].term[2][0] if evs[fresh[0]].term[2] else None)
+            if not judged_walk:
+                rep.check(nm_t is not None and depends_on_advanced_counter(nm_t, evs[:fresh[0]]), "C15.O5", construct + "[kernel-names]", f.loc, found=show(nm_t)[:120] if nm_t is not None else None,
+                          required="a kernel started after a flush has a name that cannot repeat within the program", what="kernels started after a flush re-use a kernel name (OpenQL rejects duplicate kernel names)", detail="kernel-names")
         rep.check(not problems, "C15.O4", construct + "[walk]", f.loc, found="; ".join(problems) or "one emit per element", required="sub-circuit: added nr_of_repetitions times; supported: one kernel extension; unsupported: nothing",
                   what="the exported program is not the image of the listing: " + "; ".join(problems), detail="walk")
-        if n > 1:
-            continue  # the walk body is the same on every function-level path: judge the typestate once
-        rep.check(flush_problem is None, "C15.O4", construct + "[kernel-before-sub-program]", f.loc, found=flush_problem or "pending kernel flushed before sub-programs", required="add_kernel(pending) before add_program(inner), fresh kernel after",
-                  what="sub-circuits do not appear at the position where they were added: " + (flush_problem or ""), detail="kernel-order")
-        rep.check(rep_problem is None, "C15.O5", construct + "[repetition-names]", f.loc, found=rep_problem or "fresh sub-program per repetition", required="every emitted copy has its own kernel name",
-                  what="a repetition count >= 2 re-uses one kernel name (OpenQL rejects duplicate kernel names): " + (rep_problem or ""), detail="duplicate-names")
-        # final add_kernel + return
-        tail = [c for e in p.events if e.kind == "effect" for c in find_calls(e.term, "add_kernel")]
-        okt = len(tail) == 1 and kernel_name is not None and tail[0][2] == (("after", kernel_name, lp.node.lineno),) and p.value == prog
-        rep.check(okt, "C15.O4", construct + "[final-kernel]", f.loc, found=[show(c) for c in tail], required="result_program.add_kernel(kernel) after the walk; return the program", what="the collected kernel is not part of the returned program", detail="final-kernel")
+        if not judged_walk:
+            rep.check(flush_problem is None, "C15.O4", construct + "[kernel-before-sub-program]", f.loc, found=flush_problem or "pending kernel flushed before sub-programs", required="add_kernel(pending) before add_program(inner), fresh kernel after",
+                      what="sub-circuits do not appear at the position where they were added: " + (flush_problem or ""), detail="kernel-order")
+            if pend is not None:
+                rep.check(not flag_problems, "C15.O4", construct + "[pending-flag]", f.loc, found="; ".join(flag_problems) or f"{pend}: raised by every kernel extension, lowered by every flush, untouched otherwise",
+                          required="the flag that guards the flush is true exactly when the kernel holds operations", what="the pending-kernel flag does not follow the kernel: " + "; ".join(flag_problems), detail="pending-flag")
+            judged_walk = True
+        # final add_kernel + return: on every way out on which the kernel may hold operations
+        tail = [c for e in p.events[p.events.index(lp):] if e.kind == "effect" and e.term is not None for c in find_calls(e.term, "add_kernel")]
+        may_hold = True
+        if pend is not None:
+            after_flag = ("after", pend, lineno)
+            if subst(p.cond, {after_flag: TRUE}) == FALSE:
+                may_hold = False
+        okt = p.value == prog and (not may_hold and len(tail) <= 1 or len(tail) == 1) and all(c[2] == (("after", kernel_name, lineno),) for c in tail)
+        rep.check(okt, "C15.O4", construct + "[final-kernel]", f.loc, found=[show(c) for c in tail], required="result_program.add_kernel(kernel) after the walk whenever the kernel may hold operations; return the program",
+                  what="the collected kernel is not part of the returned program", detail="final-kernel")
     rep.floor("return paths of the OpenQL walk", n, 2)
 
 
